@@ -12,7 +12,21 @@ Each change is applied to /repo with `git apply`, the checks are run, and the tr
 import sys, os, json, subprocess, glob, re, time
 
 VERIF = os.path.dirname(os.path.dirname(os.path.abspath(__file__)))
-REPO = "/repo"
+MAIN = "/repo"
+# The changes are applied in a scratch worktree of /repo's HEAD (outside /repo and /verif) and the checks are pointed at it
+# with VERIF_REPO, so that nothing else that reads /repo at the same time is disturbed.  `--in-place` applies to /repo itself
+# (git apply ... ; checks ; git checkout -- .), which is how the checks are meant to be used.
+REPO = MAIN if "--in-place" in sys.argv else "/tmp/seedwt"
+
+
+def prepare():
+    if REPO == MAIN:
+        return
+    head = subprocess.run(["git", "-C", MAIN, "rev-parse", "HEAD"], stdout=subprocess.PIPE, text=True).stdout.strip()
+    if not os.path.isdir(REPO):
+        subprocess.run(["git", "-C", MAIN, "worktree", "add", "-q", "--detach", REPO, head], check=True)
+    subprocess.run(["git", "-C", REPO, "checkout", "-q", "--detach", head], check=True)
+    subprocess.run(["git", "-C", REPO, "checkout", "-q", "--", "."], check=True)
 
 
 def sh(cmd, **kw):
@@ -27,7 +41,7 @@ def run_checks(props):
     res = {}
     for p in props:
         t0 = time.time()
-        r = sh(["python3", os.path.join(VERIF, "check.py"), p, "--tier", "quick"], cwd=VERIF)
+        r = sh(["python3", os.path.join(VERIF, "check.py"), p, "--tier", "quick"], cwd=VERIF, env=dict(os.environ, VERIF_REPO=REPO, VERIF_NO_EVIDENCE="1"))
         viol = [l for l in r.stdout.split("\n") if l.startswith("VIOLATION")]
         broken = [l for l in r.stdout.split("\n") if l.startswith("ANALYSIS-BROKEN")]
         res[p] = dict(exit=r.returncode, violations=len(viol), broken=len(broken), first=(viol or broken or [""])[0][:300], wall=round(time.time() - t0, 1))
@@ -54,10 +68,11 @@ def with_patch(patch_text, reverse, props):
 
 def main():
     a = sys.argv[1:]
+    prepare()
     allp = registered()
     rows = []
     if "--fixes" in a:
-        log = sh(["git", "-C", REPO, "log", "--format=%h %s", "--reverse"]).stdout.strip().split("\n")
+        log = sh(["git", "-C", MAIN, "log", "--format=%h %s", "--reverse"]).stdout.strip().split("\n")
         fixes = [l.split(" ", 1) for l in log if l.split(" ", 1)[1].startswith("fix:")]
         known = json.load(open(os.path.join(VERIF, "known_findings.json")))
         owner = {}
@@ -67,7 +82,7 @@ def main():
                 owner[m.group(2)] = m.group(1)
         related = {"C06": ["C06", "C07", "C12"], "C12": ["C12", "C06", "C07"], "C05": ["C05", "C11"], "C02": ["C02"], "C16": ["C16"], "C13": ["C13", "C14"], "C18": ["C18", "C16"]}
         for h, subj in fixes:
-            diff = sh(["git", "-C", REPO, "show", "--format=", h, "--", "include"]).stdout
+            diff = sh(["git", "-C", MAIN, "show", "--format=", h, "--", "include"]).stdout
             own = owner.get(h, "?")
             props = allp if "--all-checks" in a else related.get(own, [own] if own in allp else allp)
             res = with_patch(diff, True, props)
